@@ -7,5 +7,7 @@ mkdir -p bin out ../replays ../evidence
 go vet ./refchess ./hx >/dev/null 2>&1 || true
 go test -count=1 ./refchess
 go test -c -tags verif -o bin/props.setup.test ./props
-rm -f bin/props.setup.test
+# warm the build cache of the race-detector build as well (C14 runs a -race binary)
+go test -c -race -tags verif -o bin/props.setup.race.test ./props
+rm -f bin/props.setup.test bin/props.setup.race.test
 echo "setup ok"
